@@ -57,7 +57,7 @@ func (e *Env) AddServer(name string) (*refsrv.Server, error) {
 	e.Res.Addrs[name] = s.Addr()
 	if hs := e.Sc.HS; hs != nil {
 		s.NextHS = func() refsrv.HSParams {
-			return refsrv.HSParams{ServerNonce: hs.ServerNonce, P: hs.P, Q: hs.Q, PQPad8: hs.PQPad8, G: hs.G, A: hs.A, ServerTime: hs.ServerTime, PadSeed: hs.PadSeed, ExtraFingerprints: hs.ExtraFP}
+			return refsrv.HSParams{ServerNonce: hs.ServerNonce, P: hs.P, Q: hs.Q, PQPad8: hs.PQPad8, G: hs.G, A: hs.A, ServerTime: hs.ServerTime, PadSeed: hs.PadSeed, ExtraFingerprints: hs.ExtraFP, FingerprintsAfter: hs.ExtraFPAfter}
 		}
 	}
 	s.Fault = e.Sc.Fault
